@@ -17,6 +17,8 @@ own, cross, rerun = parse(f'{V}/build/benign1.log'), parse(f'{V}/build/benign2.l
 ADJ = {
  'C15-3': ("false alarm of C15, corrected", "C15's ellipse judgement hard-wired the starting vertex of a slice (centre first); the property fixes no starting vertex. The closed-primitive judgement is now invariant under cyclic rotation and winding (DESIGN.md 10.4); re-run: no alarm."),
  'C02-3': ("not benign (true alarm of C16 and C20)", "raising the load factor to 0.7 lets a table sized by hand fill completely: Library::top_level sizes its maps with resize(count * 2), so with one listed cell and two dependencies the map of capacity 2 holds 2 entries and the next Map::get of an absent name never terminates (get_slot has no empty slot to stop at).  C16 (history replace_cell / cell_array.remove, then top_level) and C20 (Map histories with small explicit capacities) report the hang; the change breaks C16/C20 although C02 itself still holds."),
+ 'C16-3': ("false alarm of C20, corrected", "C20's open-addressing invariant (every entry reachable from its home slot) computed the home slot with gdstk's generic hash(); with a dedicated TagMap hash the invariant was evaluated against the wrong slots (322 table.tagmap/probe-chain violations).  The property does not fix the hash function: home slots are now asked from each table type itself (get_slot on an empty table of the same capacity) and the colliding key alphabets are searched per table type (DESIGN.md 10.4); re-run: no alarm."),
+ 'C20-2': ("benign: no check raised an alarm (one alarm of C02 came from an intermediate state of its harness)", "the cross pass ran C02 while its standard-property cycle check was being developed; the strict first version compared summarising properties between the first and second re-loaded library and was scoped by its author before it was committed.  Re-run with the committed harness: no alarm."),
  'C03-2': ("not benign (true alarm of C16 and C20)", "same mechanism as benign/C02-3 (load factor 0.7 with hand-sized tables in Library::top_level)."),
 }
 for d in sorted(glob.glob(f'{V}/benign/C*')):
